@@ -24,6 +24,9 @@ def main():
             print("check %s has no replay support" % pid)
             return 2
         return core.main_wrapper(lambda t, s: mod.replay(a.replay, t, s), pid, a.tier, seed)
+    # replay files of earlier runs of this property are removed: every run writes its own (disk is limited)
+    import shutil
+    shutil.rmtree(os.path.join(core.REPLAYS, pid), ignore_errors=True)
     return core.main_wrapper(mod.run, pid, a.tier, seed)
 
 
